@@ -5,7 +5,8 @@
    group.  Join trees of any size and shape, tables of any size. *)
 From Coq Require Import ZArith String List Bool.
 Require Import V.Base.PyLib V.Gen.RelKeys_gen V.Model.Graph V.Model.Sem V.Model.Single V.Model.Mult V.Model.Join V.Proofs.C01_proofs
-               V.Proofs.Mult_proofs V.Proofs.C02_proofs V.Proofs.C10_proofs.
+               V.Proofs.Mult_proofs V.Proofs.C02_proofs V.Proofs.C10_proofs V.Model.Plan V.Model.SymShape V.Gen.SymAgg_gen
+               V.Proofs.C02_symagg_proofs V.Proofs.C02_decision_proofs.
 Import ListNotations.
 Open Scope nat_scope.
 
@@ -34,6 +35,30 @@ Theorem C02_side_invariant : forall g a b f, lookup g (g_name a) = Some a -> loo
   let rb := {| r_name := g_name a; r_type := "one_to_many"%string; r_fk := KStr f; r_pk := KNone; r_through := None; r_tfk := None; r_rfk := None |} in
   forall e, In e (rel_edges g a ra) <-> In e (rel_edges g b rb).
 Proof. exact side_invariant. Qed.
+
+(* TIE BY REGENERATION (Gen/SymAgg_gen.v, translator/gen_symagg.py: the function ASTs are executed by a fail-closed definitional
+   interpreter and the result validated against CPython on every run).
+   (a) per aggregation literal, the SQL text build_symmetric_aggregate_sql returns parses to a shape whose meaning over the (key, value)
+       pairs of a group is exactly the `sym_agg` the theorems above are about (same multiplier 2^40, same DISTINCT terms, AVG divides by
+       COUNT(DISTINCT key), COUNT = COUNT(DISTINCT key), COUNT DISTINCT / MIN / MAX plain, everything else rejected) *)
+Theorem C02_symagg_shapes : forall h pairs,
+  Forall (fun la => interp_shape h (shape_for sym_shapes (fst la)) pairs = sym_agg h (snd la) pairs) core_aggs.
+Proof. exact shapes_mean_sym_agg. Qed.
+(* (b) on every scripted scenario (0-2 other models; per model a join path out of ten hop-type patterns, or a failing search)
+       _has_fanout_joins marks the base model exactly when some path holds a one_to_many hop, and never another model ... *)
+Theorem C02_fanout_table : forallb fanout_row_ok fanout_rows = true.
+Proof. vm_compute. reflexivity. Qed.
+(*     ... which is the `fanout` flag of the planning model, for any graph and any number of other models *)
+Theorem C02_fanout_is_plan_flag : forall g base others,
+  existsb (fun o => path_has g base o "one_to_many") others = model_fanout (map (path_types g base) others).
+Proof. exact plan_fanout_is_model_fanout. Qed.
+
+(* THE DECISION: whatever the declarations (relationship types among the four literals) and the query, in the plan the model of the
+   generator produces every metric of the BASE model (slot 0) either gets the symmetric form or sits on a safe slot -- so with
+   C02_metric_value the only metrics that can be multiplied are those of joined models (known finding C02-K1) *)
+Theorem C02_decision : forall ms q jq joined, rel_types_ok (graph_of ms) = true -> plan ms q = PlanOk jq joined ->
+  forall m, In m (jq_metrics jq) -> jm_slot m = 0 -> jm_sym m = true \/ metric_safe jq m = true.
+Proof. exact base_metric_sym_or_safe. Qed.
 
 (* known findings (the hypotheses above fail): K1 a metric of a non-base model reached through a many_to_one hop is summed once
    per base row; K2 a NULL measure value under the symmetric SUM *)
